@@ -5,7 +5,7 @@
      amf                      value trees: ANum bits | ABool b | AStr s | AObj props | ANull | AUndef
                               | AEcma count props | AStrict props      (props : list (bytes * amf),
                               keys in wire order; ANum carries the IEEE-754 bit pattern as N)
-     enc : amf -> bytes       MarshalBinary
+     enc : amf -> bytes       MarshalBinary      (enc_fast: the same in linear time, enc_fast_eq)
      size : amf -> N          Size()
      dec : nat -> bytes -> res (amf * N)
                               Discovery(p) followed by UnmarshalBinary(p) on the discovered value;
@@ -118,6 +118,40 @@ Fixpoint enc (v : amf) : bytes :=
 
 Fixpoint enc_props (ps : props) : bytes :=
   match ps with [] => [] | (k, x) :: t => utf8_enc k ++ enc x ++ enc_props t end.
+
+(* [enc_to v tail = enc v ++ tail] without copying the encoding of a child once per enclosing
+   level (Proofs/Amf0Fast.v enc_fast_eq); this is what the harness runs *)
+Fixpoint enc_to (v : amf) (tail : bytes) {struct v} : bytes :=
+  match v with
+  | ANum b => mNumber :: be8 b ++ tail
+  | ABool b => mBoolean :: (if b then 1 else 0) :: tail
+  | AStr s => mString :: utf8_enc s ++ tail
+  | AObj ps =>
+      mObject :: (fix go (ps : props) : bytes :=
+                    match ps with
+                    | [] => eof_bytes ++ tail
+                    | (k, x) :: t => utf8_enc k ++ enc_to x (go t)
+                    end) ps
+  | ANull => mNull :: tail
+  | AUndef => mUndefined :: tail
+  | AEcma c ps =>
+      mEcmaArray :: be4 c ++
+        (fix go (ps : props) : bytes :=
+           match ps with
+           | [] => eof_bytes ++ tail
+           | (k, x) :: t => utf8_enc k ++ enc_to x (go t)
+           end) ps
+  | AStrict ps =>
+      mStrictArray :: be4 (u32 (plen ps)) ++
+        (fix go (ps : props) : bytes :=
+           match ps with
+           | [] => tail
+           | (k, x) :: t => utf8_enc k ++ enc_to x (go t)
+           end) ps
+  end.
+Fixpoint enc_props_to (ps : props) (tail : bytes) : bytes :=
+  match ps with [] => tail | (k, x) :: t => utf8_enc k ++ enc_to x (enc_props_to t tail) end.
+Definition enc_fast (v : amf) : bytes := enc_to v [].
 
 (* ---- Size() ---- *)
 Definition utf8_size (s : bytes) : N := 2 + lenN s.
@@ -585,7 +619,7 @@ Fixpoint amf_of_sx (setmode : bool) (s : sx) : option amf :=
 
 Definition obs_res (r : res (amf * N)) (withenc : bool) : sx :=
   match r with
-  | Ok (v, n) => s_ok ([sx_of_amf v; sN n] ++ (if withenc then [SB (enc v)] else []))
+  | Ok (v, n) => s_ok ([sx_of_amf v; sN n] ++ (if withenc then [SB (enc_fast v)] else []))
   | Err e => s_err e
   | Panic _ => s_panic
   end.
@@ -598,7 +632,7 @@ Definition run_c05 (c : sx) : sx :=
   match c with
   | SL [SZ 0%Z; t] =>
       match amf_of_sx true t with
-      | Some v => let b := enc v in s_ok [SB b; sN (size v); obs_res (decode_fast b) true]
+      | Some v => let b := enc_fast v in s_ok [SB b; sN (size v); obs_res (decode_fast b) true]
       | None => bad_case
       end
   | SL [SZ 1%Z; SB b] => obs_res (decode_fast b) true
@@ -622,7 +656,7 @@ Definition run_c06 (c : sx) : sx :=
   | SL [SZ 0%Z; t] =>
       match amf_of_sx false t with
       | Some v =>
-          let lb := enc v in
+          let lb := enc_fast v in
           let sb := spec_enc v in
           s_ok [SB lb; SB sb; obs_res (decode_fast sb) false; obs_spec (spec_decode lb)]
       | None => bad_case
